@@ -47,6 +47,19 @@ CHECKS = {
   note="Trusted: TLC, strace's decoding (unknown fd-producing calls stop the check), per-process call order + clone return values; "
        "sessions are scripts (interactive path: C07).",
   technique="TLA+ kernel fd model; strace traces of generated sessions validated by TLC (invariants at every execve and marker); RLIMIT fault enumeration"),
+ "C02": dict(
+  category="model_checking",
+  text="TLC explores every interleaving of the shell's steps (pipe creation, fork, parent closes, capture read, wait), the "
+       "children's set-up steps in the order of core.rs and the stages' reads / writes / exits over capacity-1 pipes for 3..4 "
+       "stages (spec/Pipeline.tla) and checks delivery, termination (liveness under fairness), no foreign pipe ends, exec with "
+       "only 0-2, shell descriptors restored. TLC enumerates scenarios with their reference outcome (spec/MCPipeScen.tla: stage "
+       "kinds incl. builtin / not-found / early exit, payload 0 B..200 kB, last-stage exit code or signal, every finishing-order "
+       "permutation); each runs on the real binary with the vst stage helper under a watchdog and is judged by bytes + checksum "
+       "received by the last stage, start counts, exit status and live processes when the shell returns; a sample runs under "
+       "strace and is validated against the kernel descriptor model.",
+  design_ref="DESIGN.md 3.6, 6 (C02)",
+  note="Trusted: TLC, the vst helper, finishing order forced by per-stage linger; hangs are judged by a 60 s watchdog.",
+  technique="TLA+ pipeline model checked by TLC (safety + liveness); TLC-enumerated scenarios replayed on the binary; strace traces validated by TLC"),
  "C06": dict(
   category="model_checking",
   text="TLC explores every interleaving of child status changes (with Linux's report coalescing), foreground-wait iterations, "
